@@ -28,8 +28,27 @@ DOTTED = "compiler.front_end.dependency_checker._find_dependency_ordering_for_fi
 def _slice():
     info = pyvc.load_function(DOTTED)
     loops = [n for n in info.node.body if isinstance(n, ast.While) and ast.unparse(n.test) == "True"]
-    if len(loops) != 1 or len(loops[0].body) != 1 or not isinstance(loops[0].body[0], ast.For) or not loops[0].body[0].orelse:
+    if len(loops) != 1 or len(loops[0].body) != 1 or not isinstance(loops[0].body[0], ast.For) or not loops[0].body[0].orelse:  # noqa
         raise core.CheckerError("anchor mismatch: expected one `while True:` loop consisting of a for/else scan in _find_dependency_ordering_for_fields_in_structure")
+    # names of the locals, read off their initialisers (a renamed local is not a changed behaviour)
+    names = {}
+    k = info.node.body.index(loops[0])
+    for n in info.node.body[:k]:
+        if isinstance(n, ast.Assign) and len(n.targets) == 1 and isinstance(n.targets[0], ast.Name):
+            src = ast.unparse(n.value)
+            if src == "[]":
+                names["order"] = n.targets[0].id
+            elif src == "set()":
+                names["added"] = n.targets[0].id
+            elif src.startswith("list(range(len("):
+                names["needed"] = n.targets[0].id
+    params = [a.arg for a in info.node.args.args]
+    if len(params) == 3:
+        names["structure"], names["type_definition"], names["dependencies"] = params
+    missing = [x for x in ("order", "added", "needed", "structure", "dependencies") if x not in names]
+    if missing:
+        raise core.CheckerError("anchor mismatch: _find_dependency_ordering_for_fields_in_structure: cannot identify %s" % missing)
+    info.names = names
     return info, loops[0]
 
 
@@ -63,7 +82,8 @@ def target_round():
         order, needed = list(order0), list(needed0)
         structure = SRec("Structure", {"field": [SRec("Field", {"name": SRec("Name", {"ghost_id": ids[k]})}) for k in range(n)]})
         it = pyvc.Interp(c, info)
-        it.env = {"structure": structure, "dependencies": deps, "order": order, "added": added, "needed": needed}
+        nm = info.names
+        it.env = {nm["structure"]: structure, nm["dependencies"]: deps, nm["order"]: order, nm["added"]: added, nm["needed"]: needed}
         c.covered = True
         left = False
         try:
